@@ -145,6 +145,10 @@ def run_copy(case, ctx):
     sim = build_state(case, ctx)
     if sim is None:
         return
+    import math as _m
+    if any(_m.isnan(v) for q in rb.pfloat(sim) for v in q if v is not None) and not case.get("tree"):
+        ctx.skip("the generated state blew up to NaN (outside the domain: NaN != NaN numerically)")
+        return
     structural_ok = case["extra"] in ("none", "testparticles") and not case.get("tree")
     if case.get("pre_remove") and structural_ok and sim.N > 2:
         settle_keep(sim)
